@@ -19,13 +19,13 @@ CHECKS = {
    design="4/C14"),
  "C09": dict(
    spec="spec/Param.tla, Param_Trace.tla",
-   text="TLC explores every history of length <= 4 over the 11 operations x 4 tags x 3 depths of the tagged-parameter state machine (193k states) and checks TagsSurvive/OptimAccepts/HooksInstalled/ValuesKept, and refutes the pre-fix mechanism (Legacy=copy_drops_hooks) with the length-2 counterexample. Every history is then replayed on real objects (copy, pickle, torch.save/load, .to, .half, load_state_dict, requires_grad_, apply_transform) and the projected state after each operation is validated by Param_Trace against the spec's Apply and the C09 clauses (tags, values, Parameter status, optimizer acceptance, same lr factor).",
+   text="TLC explores every history of length <= 4 over the 11 operations x 4 tags x 3 depths of the tagged-parameter state machine (193k states) and checks TagsSurvive/OptimAccepts/HooksInstalled/ValuesKept, and refutes the pre-fix mechanism (Legacy=copy_drops_hooks) with the length-2 counterexample. Every history is then replayed on real objects (copy, pickle, torch.save/load, .to, .half, load_state_dict, requires_grad_, apply_transform) and the projected state after each operation is validated by Param_Trace against the spec's Apply and the C09 clauses (tags, values, Parameter status, optimizer acceptance, same lr factor). Each Transform of a history is one of the six library transforms by name (no-op backend, simulate_fp8, simulate_format, unit_scale, track_scales, compile; the two documented as final-only never followed by another), also on frozen and half-precision parameters.",
    note="Trusted: the projection param_abs (reads p.__dict__, has_parameter_data, scaled_parameters). Mechanism fields (instance hooks) are compared as model drift only; the gating clauses are those of the property. Module pickling after a Transform is outside the spec (module not picklable).",
    technique="TLA+ state machine + TLC exhaustive histories; trace validation of replayed histories",
    design="4/C09"),
  "C10": dict(
    spec="spec/Optim.tla, Optim_MC.tla, Optim_Eval.tla, Rat.tla",
-   text="TLC enumerates every (optimizer, readout, tag, shape, depth, lr given, untagged allowed) over small dims as states of Optim_MC (41k), checks that the case analysis LrFactor2 is total, that errors occur exactly where stated, SGD-without-readout = Adam, the Adam/SGD mirror rule and the C12 identity, and emits each state with its expected squared factor (exact rational). Every emitted state is replayed on the real scaled_parameters and SGD/Adam/AdamW constructors (bare list, generator, explicit groups with own/global lr; float, float32- and float64-tensor lr; several parameters sharing one lr in one call); shapes up to 4096 and depths up to 1024 are evaluated point-wise by TLC (Optim_Eval).",
+   text="TLC enumerates every (optimizer, readout, tag, shape, depth, lr given, untagged allowed) over small dims as states of Optim_MC (41k), checks that the case analysis LrFactor2 is total, that errors occur exactly where stated, SGD-without-readout = Adam, the Adam/SGD mirror rule and the C12 identity, and emits each state with its expected squared factor (exact rational). Every emitted state is replayed on the real scaled_parameters and SGD/Adam/AdamW constructors (bare list, generator, explicit groups with own/global lr; float, float32- and float64-tensor lr; several parameters sharing one lr in one call); shapes up to 4096 and depths up to 1024 are evaluated point-wise by TLC (Optim_Eval). Every case is also replayed with the parameter frozen (requires_grad False) when the groups are built.",
    note="Trusted: float(lr_out)/lr_in squared compared with the spec's rational at 1e-12 (5e-7 for float32 tensors). The SGD/output-scaled rule for bias/norm is compared for 1-D shapes only ('length' is ambiguous otherwise).",
    technique="TLA+ case-analysis spec + TLC enumeration; replay of TLC-emitted cases into the real optimizers",
    design="4/C10"),
@@ -37,7 +37,7 @@ CHECKS = {
    design="4/C11"),
  "C07": dict(
    spec="spec/ResidualRule.tla, ResidualRule_MC.tla, ResidualRule_Eval.tla, Rat.tla",
-   text="The rule is specified in exact rationals of squared quantities; TLC checks the one-step lemma (1+tau_i^2) S_i = S_{i+1} for every branch index of every depth (quick: 14 depths up to 256 layers; thorough: all 1..256) x the 8x8 (mult, ratio) grid, the telescoped totals (sum of squared contributions = 1, attention:MLP = ratio^2, mean layer/embedding = mult^2) and explicit contribution products for depths <= 6, and refutes an off-by-one and a parity-swap deviation. TLC then emits tau^2 for every (mult, ratio, depth, index) and the harness compares the real rule (fresh objects, one shared rule object queried for random depth histories) and the taus wired into TransformerStack/TransformerDecoder built for several depths in random order and in sweeps of inline (temporary) rule objects at one depth, read after module histories (casts, deepcopy, eval/train).",
+   text="The rule is specified in exact rationals of squared quantities; TLC checks the one-step lemma (1+tau_i^2) S_i = S_{i+1} for every branch index of every depth (quick: 14 depths up to 256 layers; thorough: all 1..256) x the 8x8 (mult, ratio) grid, the telescoped totals (sum of squared contributions = 1, attention:MLP = ratio^2, mean layer/embedding = mult^2) and explicit contribution products for depths <= 6, and refutes an off-by-one and a parity-swap deviation. TLC then emits tau^2 for every (mult, ratio, depth, index) and the harness compares the real rule (fresh objects, one shared rule object queried for random depth histories) and the taus wired into TransformerStack/TransformerDecoder built for several depths in random order and in sweeps of inline (temporary) rule objects at one depth, read after module histories (casts, deepcopy, eval/train). Stacks are built on both sides of the decimal-digit boundaries of the child names (10, 11, 12, 21, 101 layers) and their taus read in the order the layers run.",
    note="Trusted: float64 tau squared vs the spec's rational at 1e-12. The induction from the one-step lemma to the product identities is checked explicitly only for depths <= 6.",
    technique="TLA+ rational-arithmetic spec + TLC (lemma over all depths); replay of TLC-emitted tau^2 against the real rule and stacks",
    design="4/C07"),
@@ -49,7 +49,7 @@ CHECKS = {
    design="4/C12"),
  "C01": dict(
    spec="spec/ScaledOps.tla, ScaledOps_MC.tla, ScaledOps_Trace.tla",
-   text="ScaledOps specifies the op tables (which ops exist, which report PyTorch's value exactly, which arguments are rejected) and a call-log memo machine (a configuration never maps to two factor classes). TLC checks the tables and that the memo machine refuses a data-dependent factor. Every op of the functional namespace x batch ranks 0-3 x hyperparameters x every constraint name x dtypes is then called on real tensors (two data draws + a repeated call) and compared element-wise with the torch reference; the recorded log (factor classes, shape/dtype/immutability/residual flags, expected rejections) is validated event by event by ScaledOps_Trace.",
+   text="ScaledOps specifies the op tables (which ops exist, which report PyTorch's value exactly, which arguments are rejected) and a call-log memo machine (a configuration never maps to two factor classes). TLC checks the tables and that the memo machine refuses a data-dependent factor. Every op of the functional namespace x batch ranks 0-3 x hyperparameters x every constraint name x dtypes is then called on real tensors (two data draws + a repeated call) and compared element-wise with the torch reference; the recorded log (factor classes, shape/dtype/immutability/residual flags, expected rejections) is validated event by event by ScaledOps_Trace. Validate.tla binds unsupported arguments to default / truthy / falsy non-default values (None, False, 0, '' that differ from the default), by position or keyword; rejection is demanded for all non-default bindings (deviations keywords_only, falsy_is_off refuted) and replayed on _validate and the real ops.",
    note="The numeric comparison (least-squares scalar, relative residual, tolerance by dtype; rms_norm at 5e-6 because the library computes its statistic in float32) is harness-side; TLC decides functional dependence, exact-1, and rejections from the flags. All factors are free positive constants for this property.",
    technique="TLA+ memo-machine spec; trace validation of the real call log by TLC",
    design="4/C01"),
@@ -109,7 +109,7 @@ CHECKS = {
    design="4/C17"),
  "C08": dict(
    spec="spec/Modules.tla, Modules_MC.tla",
-   text="Modules.tla is the table of the 11 leaf modules: constructor options over their valid values (plus the values the library declares unsupported), the functional op each must equal, the ARGUMENT MAPPING (which option / parameter / mode feeds which functional argument, incl. the padded-input rule of Conv1d), parameter tags and initial-value classes, and the depth-container rule. TLC enumerates all 2338 configurations, checks that every option is forwarded, consumed by construction or rejected and that tags are known to the optimizer rules, and emits each configuration with its expectation. Every configuration is constructed for real: module(x) and all gradients are compared BITWISE with the functional call assembled from the spec's mapping (train/eval, two input shapes, pinned RNG), with the torch.nn twin (shape, positive scalar multiple), tags and initial values; composite modules (MLP, MHSA, TransformerLayer, TransformerDecoder) against compositions of functional ops on their own parameters; depth containers (every construction form: positional, OrderedDict, list, generator, composite children, TransformerStack; depths 1-6) tag depth = number of children, apply their layers in order and refuse untagged parameters.",
+   text="Modules.tla is the table of the 11 leaf modules: constructor options over their valid values (plus the values the library declares unsupported), the functional op each must equal, the ARGUMENT MAPPING (which option / parameter / mode feeds which functional argument, incl. the padded-input rule of Conv1d), parameter tags and initial-value classes, and the depth-container rule. TLC enumerates all 2338 configurations, checks that every option is forwarded, consumed by construction or rejected and that tags are known to the optimizer rules, and emits each configuration with its expectation. Every configuration is constructed for real: module(x) and all gradients are compared BITWISE with the functional call assembled from the spec's mapping (train/eval, two input shapes, pinned RNG), with the torch.nn twin (shape, positive scalar multiple), tags and initial values; composite modules (MLP, MHSA, TransformerLayer, TransformerDecoder) against compositions of functional ops on their own parameters; depth containers (every construction form: positional, OrderedDict, list, generator, composite children, TransformerStack; depths 1-6) tag depth = number of children, apply their layers in order and refuse untagged parameters. weight_mup_type of Linear/LinearReadout is an enumerated option (it decides the tag, never the function); depth containers are probed with up to 12 children for order and depth.",
    note="Unit-variance of fresh weights is a sampling-error bound (5 sigma) on large instances. The composite references are harness-coded compositions of unit_scaling.functional.",
    technique="TLA+ option/argument-mapping table + TLC enumeration; replay of TLC-emitted configurations against real modules",
    design="4/C08"),
